@@ -250,6 +250,9 @@ func main() {
 		for i := 0; i < n; i++ {
 			cs := genC02(NewRng(seed, strSeed("C02"), uint64(i)), i)
 			fmt.Printf("%d\t%v\t%q\n", i, cs.Env.Names, cs.Source)
+			if os.Getenv("VERIF_DUMP_ENV") != "" {
+				fmt.Printf("\tENV %s\n", mustJSON(cs.Env))
+			}
 		}
 	case "c03exp":
 		c03Exp()
